@@ -92,6 +92,7 @@ func c13(c *Ctx) {
 		c.check(q.bypass() == nil, r, fnName(f)+":closed-tx-refused", c.pos(f.Pos()), "store commit is dominated by closed==false", "a cancelled or already committed transaction can be committed")
 		c.ruleOrder(r, f, "closed=true", storeTo("OngoingTx.closed"), "st.commit", callTo(storeT+"commit"), nil, 1)
 	}
+	c13OnlyCommittedReported(c, "C13.12/only-committed-transactions-are-reported")
 	c13PgDescribeDoesNotExecute(c, "C13.11/pgsql-describe-does-not-execute")
 	c12QueryFailureAborts(c, "C13.1/query-path-failure-aborts")
 	c13PgAbortedBlock(c, "C13.10/pgsql-failed-block-runs-nothing-on-its-own")
@@ -617,4 +618,49 @@ func c13PgDescribeDoesNotExecute(c *Ctx, r string) {
 		q := &pathQ{fn: f, from: []ssa.Instruction{in}, to: isReturn, via: callTo(sqlTxT + "Cancel"), deferVia: true, barrier: errEdgeOf(in)}
 		c.check(q.bypass() == nil, r, fmt.Sprintf("%s:describe-transaction#%d:cancelled", fnName(f), n), c.pos(in.Pos()), "cancelled on every path", "the transaction opened to describe a statement is not cancelled on every path: what the statement wrote can be committed")
 	})
+}
+
+// c13OnlyCommittedReported: what execPreparedStmts lists as committed transactions is what the caller reports to the
+// client (headers, updated rows, generated keys). A transaction closed by ROLLBACK is closed too: it is listed only
+// where the code has just committed it, or has looked at whether it was cancelled.
+func c13OnlyCommittedReported(c *Ctx, r string) {
+	f := c.mustFn(r, "embedded/sql.(*Engine).execPreparedStmts")
+	if f == nil {
+		return
+	}
+	commit := callTo(sqlTxT + "Commit")
+	notCancelled := whenCond(false, func(a string) bool { return strings.Contains(a, ").Cancelled[") || hasFieldSuffix(a, "cancelled") })
+	n := 0
+	allInstrs(f, false, func(in ssa.Instruction) {
+		cl, ok := in.(*ssa.Call)
+		if !ok {
+			return
+		}
+		b, ok := cl.Call.Value.(*ssa.Builtin)
+		if !ok || b.Name() != "append" || !strings.HasSuffix(cl.Type().String(), "[]*github.com/codenotary/immudb/embedded/sql.SQLTx") {
+			return
+		}
+		n++
+		construct := fmt.Sprintf("%s:listed-as-committed#%d", fnName(f), n)
+		okc := false
+		for _, cm := range sites(f, commit) {
+			if !instrDominates(cm, in) {
+				continue
+			}
+			okc = true // (a failed Commit returns: the listing below it is on its success edge, C13.2 decides that)
+		}
+		if !okc {
+			for _, bb := range f.Blocks {
+				for si := range bb.Succs {
+					if notCancelled(bb, si) && edgeDominates(bb, si, in.Block()) {
+						okc = true
+					}
+				}
+			}
+		}
+		c.check(okc, r, construct, c.pos(in.Pos()), "listed after its Commit, or after Cancelled() was found false", "a transaction is listed among the committed ones because it is closed: one closed by ROLLBACK is reported to the client with its updated rows and generated keys although nothing of it was applied")
+	})
+	if n < 2 {
+		c.undecided(r, "floor", fmt.Sprintf("%d places listing a transaction as committed found in execPreparedStmts", n))
+	}
 }
